@@ -728,6 +728,22 @@ int structure_words(rng_t* r, uint64_t* w, uint64_t n, unsigned bits) {
       w[at] = v;
       return 6;
     }
+    case 10: case 11: {  // neighbourhoods of powers of two: +-(2^j + {-1, 0, 1}) for every j of the domain (thresholds of
+                         // data-dependent fast paths sit there); case 11 keeps every other word random
+      const unsigned top = bits >= 64 ? 63 : (bits ? bits - 1 : 0);
+      for (uint64_t i = 0; i < n; i++) {
+        if ((t & 15) == 11 && (i & 1)) continue;
+        const uint64_t u = mix64(t + i * 0x9E3779B97F4A7C15ull);
+        const unsigned j = (unsigned)(u % (top + 1));
+        int64_t v = (int64_t)((uint64_t)1 << j);
+        const unsigned dl = (unsigned)((u >> 8) % 3);
+        if (dl == 0 && j > 0) v -= 1;
+        else if (dl == 2 && j < top) v += 1;
+        if (bits < 64 && ((u >> 16) & 1)) v = -v;  // signed domains only
+        w[i] = (uint64_t)v;
+      }
+      return 8;
+    }
     case 9: {  // zeros at the back
       const uint64_t z = 1 + (t >> 12) % n;
       memset(w + (n - (z < n ? z : n - 1)), 0, (z < n ? z : n - 1) * 8);
